@@ -557,7 +557,10 @@ def run_history(hid: str, h: list[dict], final_saved: bool = True, facets_on: bo
         out = run.apply(a)
         steps.append({"a": dict(a, tid=tid), "out": out, "t": run.observe()})
         if a["op"] in ("save", "reopen"):
-            saves.append({"at": i, "z": run.saved(st, False, raw=run.last_saved)})
+            try:
+                saves.append({"at": i, "z": run.saved(st, False, raw=run.last_saved)})
+            except Exception as e:      # what was written cannot be read as a package: an observation (ok = FALSE), not a crash
+                saves.append({"at": i, "z": None, "err": "%s: %s" % (type(e).__name__, str(e)[:200])})
         if before_saved is not None:
             b = io.BytesIO()
             run.prs.save(b)
